@@ -20,6 +20,7 @@ type Env struct {
 	noLocals    bool
 	paramsFirst bool
 	calleeMode  bool
+	pos         bool // positive position of a clause that is being asserted: unbound disjuncts count as false
 	pkg         *types.Package
 }
 
@@ -425,6 +426,10 @@ func (g *Gen) eval(n *Node, env *Env) (Term, error) {
 	case "chr":
 		return Term{S: fmt.Sprint(int(n.Val[0])), Sort: "Int", T: types.Typ[types.Uint8]}, nil
 	case "un":
+		if env.pos {
+			env = env.clone()
+			env.pos = false
+		}
 		x, err := g.eval(n.Args[0], env)
 		if err != nil {
 			return Term{}, err
@@ -528,12 +533,37 @@ func (g *Gen) eval(n *Node, env *Env) (Term, error) {
 }
 
 func (g *Gen) evalBin(n *Node, env *Env) (Term, error) {
-	a, err := g.eval(n.Args[0], env)
+	envL, envR := env, env
+	if env.pos {
+		switch n.Val {
+		case "||", "&&":
+		case "==>":
+			envL = env.clone()
+			envL.pos = false
+		default:
+			envL = env.clone()
+			envL.pos = false
+			envR = envL
+		}
+	}
+	a, err := g.eval(n.Args[0], envL)
 	if err != nil {
+		if env.pos && n.Val == "||" && isUnbound(err) {
+			// a disjunct that cannot be stated at this program point counts as false (positive position only)
+			return g.eval(n.Args[1], envR)
+		}
 		return Term{}, err
 	}
-	b, err := g.eval(n.Args[1], env)
+	b, err := g.eval(n.Args[1], envR)
 	if err != nil {
+		if env.pos && isUnbound(err) {
+			switch n.Val {
+			case "||":
+				return a, nil
+			case "==>":
+				return Term{S: not(a.S), Sort: "Bool"}, nil
+			}
+		}
 		return Term{}, err
 	}
 	isNil := func(m *Node) bool { return m.Kind == "id" && m.Val == "nil" }
@@ -581,10 +611,16 @@ func (g *Gen) evalBin(n *Node, env *Env) (Term, error) {
 		return Term{S: fmt.Sprintf("(+ %s %s)", a.S, b.S), Sort: a.Sort, T: a.T}, nil
 	case "-", "*":
 		a, b = coerceNum(a, b)
+		if n.Val == "*" && a.Sort == "Real" && n.Args[0].Kind != "int" && n.Args[1].Kind != "int" {
+			return Term{S: g.realMul(nil, nil, a.S, b.S), Sort: "Real"}, nil
+		}
 		return Term{S: fmt.Sprintf("(%s %s %s)", n.Val, a.S, b.S), Sort: a.Sort, T: a.T}, nil
 	case "/":
 		if a.Sort == "Real" || b.Sort == "Real" {
 			a, b = coerceNum(a, b)
+			if n.Args[1].Kind != "int" {
+				return Term{S: g.realDiv(nil, a.S, b.S), Sort: "Real"}, nil
+			}
 			return Term{S: fmt.Sprintf("(/ %s %s)", a.S, b.S), Sort: "Real"}, nil
 		}
 		return Term{S: goDiv(a.S, b.S), Sort: "Int", T: a.T}, nil
@@ -595,6 +631,10 @@ func (g *Gen) evalBin(n *Node, env *Env) (Term, error) {
 }
 
 func (g *Gen) evalCall(n *Node, env *Env) (Term, error) {
+	if env.pos {
+		env = env.clone()
+		env.pos = false
+	}
 	args := n.Args[1:]
 	name := n.Val
 	arg := func(i int) (Term, error) {
@@ -974,4 +1014,9 @@ func triggersFor(body, q string) string {
 		b.WriteString(":pattern (" + p + ") ")
 	}
 	return strings.TrimSpace(b.String())
+}
+
+func isUnbound(err error) bool {
+	m := err.Error()
+	return strings.Contains(m, "unbound name") || strings.Contains(m, "no call to")
 }
